@@ -81,6 +81,9 @@ def make_case(rng):
     return cfg_id, terms, prods
 
 
+_LINES = []
+
+
 def judge_parse(ctx, mon, cfg, parser, prods, start, toks, text, expected, smart, as_lines, case,
                 explicit_start=None):
     """parse one text; returns True/False (accepted?) or None (dropped)"""
@@ -95,8 +98,11 @@ def judge_parse(ctx, mon, cfg, parser, prods, start, toks, text, expected, smart
         # the parser is asked to log what it does (the messages themselves go nowhere)
         kw["debug"] = True
         ctx.count("parses_with_debug_logging")
+    if as_lines:
+        # (the caller keeps ONE list object for its lines and fills it anew for every text)
+        _LINES[:] = text.split("\n")
     try:
-        tree = parser.parse(text.split("\n") if as_lines else text, do_cleanup=False, **kw)
+        tree = parser.parse(_LINES if as_lines else text, do_cleanup=False, **kw)
     except llparser.ParsingError:
         ctx.count("rejected")
         return False
